@@ -7,7 +7,7 @@
    them and is evaluated by the contract monitor on every case of every run. *)
 From Coq.Strings Require Import Byte.
 From EsVerif.Common Require Import Base Bytes.
-From EsVerif.C04 Require Import Gen TextModel Spec DecProofs ScanProofs WriteProofs RoundTrip CheckProofs FmtModel Exec ExecProofs.
+From EsVerif.C04 Require Import Gen TextModel Spec DecProofs ScanProofs WriteProofs RoundTrip CheckProofs FmtModel FmtProofs Exec ExecProofs.
 
 (* ---- integers: printf %d / scanf %d and the memory image are inverse to each other *)
 Theorem C04_dec_parse_roundtrip : forall z, parse_dec (dec z) = z.
@@ -66,6 +66,19 @@ Theorem C04_roundtrip_fmt_model : forall d t,
   read_text P_model d (tdt t) (Z.of_nat (length (trows t))) (write_text F_model d t) = Ok (expected F_model P_model t)
   /\ roundtrip_ok t (read_text P_model d (tdt t) (Z.of_nat (length (trows t))) (write_text F_model d t)).
 Proof. intros d t. apply C04_roundtrip_outside_known. Qed.
+
+(* ---- two of the three parts of H_num hold for the modelled printf/strtod for EVERY memory image and every precision:
+   the printed text is one well-formed scanf token, and strtod stores exactly sz bytes for it.  H_num therefore
+   reduces to its accuracy part (16 / 7 significant digits, NaN, +-inf), which is what the monitor decides per case *)
+Theorem C04_fmt_model_token : forall sz e, tok_ok TFloat (F_model sz e) = true.
+Proof. exact F_model_tok_ok. Qed.
+
+Theorem C04_fmt_model_length : forall sz e, sz = 4%nat \/ sz = 8%nat -> length (P_model sz (F_model sz e)) = sz.
+Proof. exact F_model_P_model_length. Qed.
+
+Theorem C04_fmt_model_contract_is_accuracy : forall t,
+  table_ok t -> facc_b F_model P_model t = true -> fcontract F_model P_model t.
+Proof. exact fcontract_of_acc. Qed.
 
 (* the contract is not vacuous for the modelled printf/strtod: binary64 1/3, -0, nan, inf, the least subnormal,
    1e22, 123456, 0.0001, binary32 0.1f and FLT_MAX print as glibc prints them and come back within the stated digits *)
